@@ -139,7 +139,10 @@ def run_dag_case(spec, tier, mg):
         node3 = d % n
         third = d % (k + node3)
         dag3 = list(dag)
-        dag3[node3] = (("addseq" if dag[node3][0] == "add" else "mulseq"),) + dag[node3][1:] + (third,)
+        # multiply_sequence only on a node whose operands are leaves (its backward tests `out == 0`, and
+        # deciding that for products of high-degree intermediates exceeds the feasibility budget)
+        seq = "mulseq" if (dag[node3][0] == "mul" and all(j < k for j in dag[node3][1:] + (third,))) else "addseq"
+        dag3[node3] = (seq,) + dag[node3][1:] + (third,)
         for pat in pats:
             variants.append((dag, pat, False, None))
         variants.append((dag3, pats[0], False, None))
